@@ -563,7 +563,7 @@ def generate_coordinates_rule(ctx, rep, rule="distinct"):
                 im = strip(src[2][0])
                 old_ = se.call_old.get((im[3][:2], 0))
                 la = (se.term_info.get(im[3][1], {}).get("locargs") or (("?",),))[0]
-                if old_ is not None and util.is_call(strip(old_), "std::vec::from_elem") and la[0] == "ref" and la[1][0] == "local":
+                if old_ is not None and util.is_call(strip(old_), "std::vec::from_elem") and la[0] == "ref" and la[1][0] == "local" and N(strip(old_)[2][1], {}) == ("param", 3):
                     slots = {"im": im, "old": strip(old_), "loc": la[1], "elem": elem}
                     rounds = (head, ("field", elem, 0))
     if not rounds:
@@ -595,6 +595,28 @@ def generate_coordinates_rule(ctx, rep, rule="distinct"):
                         good = True
                         tkey = info_["dest"]
                         table_init = info_["term"]
+        if not good:
+            # `for (n, cell) in table.iter_mut().enumerate() { *cell = n as u8 }` over the zero-filled
+            # table of `size` cells: table[n] = n (size is a u8 product, so n as u8 is n)
+            for head, (elem, src, lp) in fi.items():
+                if util.is_call(src, "std::iter::Iterator::enumerate") and util.is_call(strip(src[2][0]), "core::slice::<impl [T]>::iter_mut") and (lp["resolved"] or "").startswith("<std::iter::Enumerate<I> as std::iter::Iterator>::next"):
+                    im = strip(src[2][0])
+                    old_ = se.call_old.get((im[3][:2], 0))
+                    la = (se.term_info.get(im[3][1], {}).get("locargs") or (("?",),))[0]
+                    if old_ is None or not (util.is_call(strip(old_), "std::vec::from_elem") and la[0] == "ref" and la[1][0] == "local"):
+                        continue
+                    o_ = strip(old_)
+                    wr = [(loc_, v_) for (bi_, si_), (loc_, v_) in se.assigns.items() if loc_[0] == "deref" and strip(loc_[1])[:2] == ("field", elem)]
+                    loop_ = set()
+                    for e_ in cfg.back_edges(body):
+                        if e_[1] == head:
+                            loop_ |= cfg.natural_loop(body, e_)
+                    exits_ = {s_ for b_ in loop_ for s_ in body.succs(b_) if s_ not in loop_ and body.blocks[s_]["term"]["k"] != "unreachable"}
+                    if (o_[2][0][:2] == ("int", 0) and N(o_[2][1], {}) == size and len(wr) == 1 and strip(wr[0][0][1]) == ("field", elem, 1)
+                            and strip(wr[0][1]) == ("cast", "IntToInt", ("field", elem, 0), "u8") and exits_ == {lp["exit_bb"]}):
+                        good = True
+                        tkey = la[1]
+                        table_init = ("after", im, 0, old_)
         if not good:
             # a copy of a constant table [0, 1, .., 255]: every card has at most 255 cells (the
             # size is a u8), so the cells the draw can reach hold their own index
